@@ -10,11 +10,35 @@ fn transport(proto: Proto, url: String, gzip: bool) -> OtlpTransportBuilder {
     t.allow_compression(gzip)
 }
 
+/// Configuration forms the delivery / routing rules do not depend on.
+#[derive(Clone, Copy, Default)]
+pub struct Forms {
+    /// `OtlpBuilder::resource` with the attribute `vh.res = RES_VALUE` (and a second one)
+    pub resource: bool,
+    /// `OtlpTransportBuilder::headers`: `x-vh-tag: a`, `x-vh-tag: b` (a duplicate key) and one more
+    pub headers: bool,
+    /// start from `Otlp::builder()` instead of `emit_otlp::new()`
+    pub entry_builder: bool,
+}
+
+pub const RES_VALUE: &str = "vh-resource";
+pub const HDR_VALUES: &str = "a,b";
+
 /// A real emitter with the given subset of signals, every signal pointed at its endpoint.
 pub fn build(sc: &Scenario, proto: Proto, gzip: bool, signals: &[Signal]) -> Otlp {
-    let mut b = emit_otlp::new();
+    build_with(sc, proto, gzip, signals, Forms::default())
+}
+
+pub fn build_with(sc: &Scenario, proto: Proto, gzip: bool, signals: &[Signal], forms: Forms) -> Otlp {
+    let mut b = if forms.entry_builder { Otlp::builder() } else { emit_otlp::new() };
+    if forms.resource {
+        b = b.resource([(crate::decode::RES_KEY, RES_VALUE), ("service.name", "vh")]);
+    }
     for &s in signals {
-        let t = transport(proto, sc.ep(s).url(), gzip);
+        let mut t = transport(proto, sc.ep(s).url(), gzip);
+        if forms.headers {
+            t = t.headers([(crate::collector::TAG_HEADER, "a"), (crate::collector::TAG_HEADER, "b"), ("x-vh-other", "c")]);
+        }
         b = match (s, proto) {
             (Signal::Logs, Proto::HttpJson) => b.logs(OtlpLogsBuilder::json(t)),
             (Signal::Logs, _) => b.logs(OtlpLogsBuilder::proto(t)),
